@@ -40,8 +40,10 @@ func Spend(h wire.Hash, idx uint32, seq uint64) *wire.TxIn {
 	return in
 }
 
-// BareMultiSigScript is a bare 1-of-1 multisig output (a script class no wallet address can own;
-// consensus accepts it in blocks, the wallet must simply skip it).
+// BareMultiSigScript is a bare 1-of-1 multisig output (a script class no wallet address can own).
+// Block validation in mass-core (checkParsePkScriptNew) refuses multisig and non-standard outputs,
+// so a real node never delivers one; the histories keep them in some worlds only as a robustness
+// margin (the wallet must simply skip them), and no oracle may demand more than that of them.
 func BareMultiSigScript(pub [33]byte) []byte {
 	return append(append([]byte{0x51, 0x21}, pub[:]...), 0x51, 0xae)
 }
